@@ -54,6 +54,84 @@ CHECKS.update({
                 technique='Coq proof + AST-reflected stock-condition operators + exhaustive boundary correspondence', design='7 (C13)'),
 })
 
+CHECKS.update({
+    'C01': dict(text=CONV + "Accept/reject and the returned value are decided against the Coq model by the correspondence (every constructor of the grammar, "
+                "random equivalent spellings); theorems: the result of every scalar conversion has the target's kind and same-kind conversion is the identity "
+                "(C02 lemmas), whatever a type accepts has a kind its head allows, containers/unions succeed only through their element conversions, unions "
+                "take the left-most member (C11), conditions restrict exactly (C13), dataclass binding table (C15). A monitor checks deep exact typing of "
+                "results and stability under re-evaluation / re-spelling. PARTIAL: a single 'denotes' relation equivalent to the model is not stated.",
+                technique='Coq model + vm_compute correspondence; structural theorems shared with C02/C11/C13/C15 (partial)', design='7 (C01)'),
+    'C02': dict(text=CONV + "Theorems: the generated scalar table equals the strictness matrix written from the property text (complete finite sweep); "
+                "the generic and dataclass isinstance gates treat only list/tuple as sequences and only dict as mappings (never text/bytes); for ALL "
+                "types and values an accepted value has a kind the matrix allows for the type's head, and container / tuple / mapping / union "
+                "conversions succeed only through their element conversions (so it holds at every depth and context); results have the target kind, "
+                "same-kind conversion is the identity. Exhaustive 19 targets x 11 kinds x 8 contexts matrix on pane every run.",
+                technique='Coq proof over reflected tables + exhaustive kind x target x context matrix', design='7 (C02)'),
+    'C07': dict(text=CONV + "Theorems: a sequence/tuple product node's children are exactly the positions whose element is rejected on its own, each child the "
+                "element type's own tree; struct nodes: extra = unknown keys, missing = absent fields; a union node has one child per member in "
+                "declaration order, each the member's own tree; leaves record the offending value. Dataclass / mapping nodes: correspondence "
+                "(full structural tree equality incl. expected strings) + a compositional monitor on pane; two DictConverter findings recorded.",
+                technique='Coq proof (children/missing/extra/union specs) + tree correspondence + compositional monitor', design='7 (C07)'),
+    'C08': dict(text="Renderer model (coq/Model/Render.v: fusing of product chains, sum flattening, inside_sum variants) tied by exact text equality with "
+                "str(ConvertError) on float-free, cause-free trees. Theorems: every tree the diagnostic pass produces for any well-formed type and any "
+                "value is well shaped, rendering it never raises, and the message contains (as tokens) every path component - also in fused a.b.c "
+                "chains -, every leaf expectation, missing / unexpected / duplicated field, info line and condition name. str() of floats and "
+                "traceback text are not modelled (monitor on pane only).",
+                technique='Coq proof (totality + completeness of the renderer on all producible trees) + text correspondence', design='7 (C08)'),
+    'C09': dict(text="PARTIAL. Theorem (complete sweep of a table generated from the source by an AST data-flow pass): every mutating method call / item "
+                "assignment / deletion in every pass of every converter class has a freshly built object or a copy as receiver, never the value passed in; "
+                "heap model of the tag-stripping protocol (copy, then pop on the copy): input unchanged for all mappings and keys, and refuted without the "
+                "copy. Globally: instrumented dict/list inputs + deep snapshots on pane for from_data / collect_errors / convert / into_data / "
+                "constructors, both verdicts. Mutation by user hooks or below the Python method level is outside the model.",
+                technique='Coq proof over an AST-generated mutation table + heap model; instrumented-input monitor (partial)', design='7 (C09)'),
+    'C10': dict(text="Theorems: KeyCache (unbounded and LRU, maxsize>=1) returns the memoised function's value after ANY call history, LRU keeps <= maxsize "
+                "distinct keys in recency order and evicts the least recent, and the invariant holds in EVERY interleaving of threads at the code's lock "
+                "granularity; the converter cache keyed on id(type) answers with the structure of the object asked about after ANY history of builds, drops, "
+                "id re-use and lookups, given that entries pin their type object (read from the source), and is refuted without pinning. Real KeyCache vs "
+                "model call-by-call in coqc; Build/Convert/Drop/GC histories, first-seen order and threads on the real make_converter. PARTIAL for threads "
+                "(byte-code preemption not modelled).",
+                technique='Coq proof by induction over operation histories / interleavings + KeyCache correspondence + history monitor', design='7 (C10)'),
+    'C12': dict(text=CONV + "Theorems: the fast pass of a tagged union equals a specification that depends on the tag value only; a body error is exactly the chosen "
+                "variant's tree; unknown / unhashable tags give a leaf that names the tag and shows the tag value, an absent tag names the key(s); non-mappings "
+                "are rejected; what the writer emits for the external / adjacent / internal layout is read back into the same variant. Duplicate tags refused at "
+                "build time: checked on pane. Findings recorded for layouts the writer and reader disagree on.",
+                technique='Coq proof against a tag-only dispatch spec + layout symmetry lemmas + correspondence', design='7 (C12)'),
+    'C14': dict(text=CONV + "Theorems: the set-field record of a constructed instance is exactly the supplied fields; fields not supplied take their default value or the "
+                "factory product (never nothing, never the factory); a missing required field blocks construction; the hook runs in every construction and its "
+                "failure is a failed conversion on the mapping and sequence paths. Equality of the constructor / mapping / sequence paths over subsets of supplied "
+                "fields, identity-freshness of factory products, make_unchecked and 12 creation paths of a counting hook are checked on pane.",
+                technique='Coq proof on the construction model + path-equivalence monitor over field subsets', design='7 (C14)'),
+    'C15': dict(text=CONV + "Name derivation: Coq model of FieldSpec.make_field tied by an EXHAUSTIVE correspondence (864 option x style configurations); theorems: class "
+                "styles give the canonical spellings (via C20), out_name wins on output, aliases are additional so the written name is read back. Binding: a key "
+                "binds iff it is the Python name or an input name (last field wins), unknown keys vs allow_extra, duplicates, missing required, disabled layouts, "
+                "sequence length range, positional binding in field order, output names and exclusion. Exhaustive decision table on a 3-field class family on pane.",
+                technique='Coq proof + exhaustive name-derivation correspondence + decision-table enumeration', design='7 (C15)'),
+    'C16': dict(text="Theorems: the hash rule table (reflected from the live classes._hash_action) equals the table written from the dataclasses documentation and the "
+                "live dataclasses._hash_action on all 16 cells; for field values in any domain with an equivalence == and a compatible total order: == is an "
+                "equivalence and ignores generic parameters, exactly one of <, ==, > holds for same-class instances, <= / >= are derived, a<b iff b>a, equal "
+                "instances hash equal when hash fields are compare fields (necessary: _refuted). Comparisons of the real classes vs the model in coqc over the "
+                "exhaustive option cube x field flags; frozen, copy, deepcopy, replace, repr on pane. Two findings recorded.",
+                technique='Coq proof (order/equality/hash laws, reflected hash table) + option-cube correspondence', design='7 (C16)'),
+    'C17': dict(text="Coq model of classes._process (dict update over the reversed MRO, override in place, inherited defaults, KW_ONLY, keyword-only partition, positional "
+                "bounds) tied by correspondence on random hierarchies; theorems: effective names are in first-occurrence order, a redeclared field keeps its position "
+                "and takes the last declaration, keyword-only fields are moved back stably, type-variable substitution composes and reaches every occurrence. "
+                "Signature / repr order, generic binding / forwarding / re-declaration / swapping, enforcement of substituted types and option inheritance over "
+                "2-4 levels are checked on pane. The MRO (C3) and typing.Generic internals are Python's.",
+                technique='Coq proof on the _process model + hierarchy correspondence + generic/option monitors', design='7 (C17)'),
+    'C18': dict(text="Theorems over the dispatch order, handler iteration order, class-handler composition and field-converter test reflected from the source by AST: "
+                "the consultation order is field, call, nearest class, outer classes, protocol, scalar built-ins, registered, structural; the converter used is "
+                "the first source in that order that answers, for every subset of sources; a source answering NotImplemented defers; the mapping form matches "
+                "only the exact unparameterised type. EXHAUSTIVE on pane: 32 source subsets x 3 target kinds x 5 nesting shapes x both directions with marker "
+                "converters; call-level handlers reach every string position of a nested value in both directions.",
+                technique='Coq proof over AST-reflected dispatch order + exhaustive source-subset enumeration', design='7 (C18)'),
+    'C19': dict(text="PARTIAL (json / PyYAML are oracles). Theorems: ownership state machine of open_file (caller streams untouched, paths opened and closed by pane on "
+                "every exit, all readers/writers go through it, UTF-8) read from the source by AST; the file round trip is the composition of the serialiser law "
+                "load(dump d)=normalise d, list-vs-tuple insensitivity of reading (proved on the container fragment) and C05. On pane: real files under a scratch "
+                "directory, str/Path/open stream/StringIO/returned string, the full formatting-option matrix, non-ASCII and multi-line text, multi-document YAML, "
+                "handles closed also on failure.",
+                technique='Coq proof (ownership machine, composition theorem; serialisers as oracles) + file round-trip monitor (partial)', design='7 (C19)'),
+})
+
 PENDING = {}
 
 
